@@ -461,7 +461,12 @@ class Ctx:
             self.violation("gofacts-failed", "constants could not be regenerated from the Go source: " + out[-500:],
                            {"kind": "translator", "output": out[-2000:]}, failing_input=False)
             return False
-        names = theorem_names(prop_files)
+        try:
+            names = theorem_names(prop_files)
+        except FileNotFoundError as e:
+            self.coverage.update({"obligations": 1, "discharged": 0, "checker_cmd": "n/a"})
+            self.proof_broken = "property file missing: %s" % e
+            return False
         targets = ["Properties/%s.vo" % f for f in prop_files] + list(extra_targets)
         t = time.time()
         ok, out = coq_make(targets)
